@@ -92,43 +92,180 @@ Qed.
 
 (* ---------- the premise as a usable fact ---------- *)
 
-Lemma tracks_agree evs :
-  mtime_tracks_content evs = true -> forall a b, In a evs -> In b evs -> agree a b = true.
+Lemma same_key_eq k e : same_key k e = true <-> e_ckey e = Some k.
 Proof.
-  unfold mtime_tracks_content; intros Hall a b Ia Ib.
-  rewrite forallb_forall in Hall. specialize (Hall a Ia).
-  rewrite forallb_forall in Hall. exact (Hall b Ib).
+  unfold same_key. destruct (e_ckey e) as [k'|]; split; intros E; try discriminate.
+  - apply ckey_eqb_eq in E; subst; reflexivity.
+  - inversion E; subst. apply ckey_eqb_refl.
 Qed.
 
-Lemma agree_same_bytes a b p b1 b2 m :
-  agree a b = true -> e_path a = p -> e_path b = p ->
-  e_cur a = Some (b1, m) -> e_cur b = Some (b2, m) -> b1 = b2.
+Lemma last_same_cons_same k ev rpast : e_ckey ev = Some k -> last_same k (ev :: rpast) = Some ev.
+Proof. intros E. unfold last_same; simpl. apply same_key_eq in E. rewrite E. reflexivity. Qed.
+
+Lemma last_same_cons_other k ev rpast :
+  e_ckey ev <> Some k -> last_same k (ev :: rpast) = last_same k rpast.
 Proof.
-  unfold agree; intros A Pa Pb Ca Cb. rewrite Ca, Cb, Pa, Pb, path_eqb_refl, N.eqb_refl in A.
+  intros NE. unfold last_same; simpl. destruct (same_key k ev) eqn:E; [|reflexivity].
+  apply same_key_eq in E. contradiction.
+Qed.
+
+Lemma agree_same_bytes prev ev b1 b2 m :
+  agree prev ev = true -> e_cur prev = Some (b1, m) -> e_cur0 ev = Some (b2, m) -> b1 = b2.
+Proof.
+  unfold agree; intros A Ca Cb. rewrite Ca, Cb, N.eqb_refl in A.
   simpl in A. apply N.eqb_eq in A; exact A.
 Qed.
+
+Lemma link_ok_use rpast ev k e0 :
+  link_ok rpast ev = true -> e_ckey ev = Some k -> last_same k rpast = Some e0 -> agree e0 ev = true.
+Proof. unfold link_ok; intros L K S. rewrite K, S in L. exact L. Qed.
 
 (* ---------- exec / final over concatenation ---------- *)
 
 Section Run.
   Variable detect : N -> option N.
   Variable H : N -> N -> N.
-  Variable legacy : bool.
+  Variable v : variant.
 
   Lemma final_app s h1 h2 :
-    final detect H legacy s (h1 ++ h2) = final detect H legacy (final detect H legacy s h1) h2.
+    final detect H v s (h1 ++ h2) = final detect H v (final detect H v s h1) h2.
   Proof. revert s; induction h1 as [|o h1 IH]; simpl; intros s; [reflexivity | apply IH]. Qed.
 
   Lemma exec_app s h1 h2 :
-    exec detect H legacy s (h1 ++ h2) =
-    exec detect H legacy s h1 ++ exec detect H legacy (final detect H legacy s h1) h2.
+    exec detect H v s (h1 ++ h2) =
+    exec detect H v s h1 ++ exec detect H v (final detect H v s h1) h2.
   Proof.
     revert s; induction h1 as [|o h1 IH]; simpl; intros s; [reflexivity|].
-    destruct (snd (step detect H legacy s o)); simpl; rewrite IH; reflexivity.
+    destruct (snd (step detect H v s o)); simpl; rewrite IH; reflexivity.
+  Qed.
+
+  Lemma tracks_app rpast a b :
+    tracks rpast (a ++ b) = tracks rpast a && tracks (rev a ++ rpast) b.
+  Proof.
+    revert rpast; induction a as [|e a IH]; intros rpast; simpl; [reflexivity|].
+    rewrite IH, <- app_assoc. simpl. rewrite andb_assoc. reflexivity.
+  Qed.
+
+  (* ----- what `serve` and `compile` do to the result cache ----- *)
+
+  Lemma serve_shape rs c' f' fsv p src cur0 ck exe id det s' ev :
+    serve detect H rs c' f' fsv p src cur0 ck exe id det = (s', ev) ->
+    e_path ev = p /\ e_src ev = src /\ e_cur0 ev = cur0 /\ e_ckey ev = ck /\ e_cur ev = stat fsv p /\
+    e_id ev = Some id /\ e_key ev = Some (H id src) /\ e_exe ev = Some exe /\
+    fsys s' = f' /\ comps s' = c'.
+  Proof.
+    unfold serve. destruct (stat fsv exe) as [[b0 m0]|].
+    - destruct (detect b0).
+      + destruct (rlookup (H id src) rs); intros E; inversion E; subst; simpl; repeat split; reflexivity.
+      + intros E; inversion E; subst; simpl; repeat split; reflexivity.
+    - intros E; inversion E; subst; simpl; repeat split; reflexivity.
+  Qed.
+
+  Lemma serve_results rs c' f' fsv p src cur0 ck exe id det s' ev :
+    serve detect H rs c' f' fsv p src cur0 ck exe id det = (s', ev) ->
+    (results s' = rs /\ (forall q, e_out ev <> OMiss q) /\
+     (forall q, e_out ev = OHit q -> rlookup (H id src) rs = Some q) /\
+     (served ev <> None -> exists q, e_out ev = OHit q)) \/
+    (exists b, e_out ev = OMiss b /\ rlookup (H id src) rs = None /\ results s' = (H id src, b) :: rs).
+  Proof.
+    unfold serve. destruct (stat fsv exe) as [[b0 m0]|].
+    - destruct (detect b0).
+      + destruct (rlookup (H id src) rs) eqn:L; intros E; inversion E; subst; simpl.
+        * left. split; [reflexivity|]. split; [discriminate|]. split.
+          -- intros q Q; inversion Q; subst; reflexivity.
+          -- intros _. eexists; reflexivity.
+        * right. exists b0. auto.
+      + intros E; inversion E; subst; simpl. left. split; [reflexivity|]. split; [discriminate|].
+        split; [discriminate|]. unfold served; simpl. intros C; contradiction C; reflexivity.
+    - intros E; inversion E; subst; simpl. left. split; [reflexivity|]. split; [discriminate|].
+      split; [discriminate|]. unfold served; simpl. intros C; contradiction C; reflexivity.
+  Qed.
+
+  Lemma compile_cases s p src env s' ev :
+    compile detect H v s p src env = (s', ev) ->
+    (results s' = results s /\ e_key ev = None /\ served ev = None) \/
+    (exists c' f' fsv cur0 ck exe id det,
+       serve detect H (results s) c' f' fsv p src cur0 ck exe id det = (s', ev)).
+  Proof.
+    unfold compile. destruct (compiler_info detect v (comps s) (fsys s) p env) as [[c' fsv] i].
+    destruct i as [| |exe id det].
+    - intros E; inversion E; subst; simpl. left; auto.
+    - intros E; inversion E; subst; simpl. left; auto.
+    - intros E. right. repeat eexists. exact E.
+  Qed.
+
+  Lemma compile_shape s p src env s' ev :
+    compile detect H v s p src env = (s', ev) ->
+    e_path ev = p /\ e_src ev = src /\ e_cur0 ev = stat (fsys s) p /\
+    e_ckey ev = req_key v (fsys s) p /\ fsys s' = env_run (fsys s) env.
+  Proof.
+    unfold compile. destruct (compiler_info detect v (comps s) (fsys s) p env) as [[c' fsv] i].
+    destruct i as [| |exe id det].
+    - intros E; inversion E; subst; simpl; auto.
+    - intros E; inversion E; subst; simpl; auto.
+    - intros E. apply serve_shape in E. intuition.
+  Qed.
+
+  Lemma compile_hit s p src env s' ev k q :
+    compile detect H v s p src env = (s', ev) ->
+    e_key ev = Some k -> rlookup k (results s) = Some q -> served ev <> None -> e_out ev = OHit q.
+  Proof.
+    intros Hc K L Sv. destruct (compile_cases _ _ _ _ _ _ Hc) as [[_ [K0 _]] | Sr].
+    - rewrite K0 in K; discriminate.
+    - destruct Sr as [c' [f' [fsv [cur0 [ck [exe [id [det E]]]]]]]].
+      pose proof (serve_shape _ _ _ _ _ _ _ _ _ _ _ _ _ E) as Sh.
+      destruct Sh as [_ [_ [_ [_ [_ [_ [K1 _]]]]]]]. rewrite K1 in K; inversion K; subst k.
+      destruct (serve_results _ _ _ _ _ _ _ _ _ _ _ _ _ E) as [[_ [_ [Hq Sv']]] | [b [_ [N0 _]]]].
+      + destruct (Sv' Sv) as [q' Q]. rewrite (Hq _ Q) in L. inversion L; subst. exact Q.
+      + rewrite N0 in L; discriminate.
+  Qed.
+
+  Lemma compile_stores s p src env s' ev k :
+    compile detect H v s p src env = (s', ev) ->
+    e_key ev = Some k -> served ev <> None -> exists q, rlookup k (results s') = Some q.
+  Proof.
+    intros Hc K Sv. destruct (compile_cases _ _ _ _ _ _ Hc) as [[_ [K0 _]] | Sr].
+    - rewrite K0 in K; discriminate.
+    - destruct Sr as [c' [f' [fsv [cur0 [ck [exe [id [det E]]]]]]]].
+      pose proof (serve_shape _ _ _ _ _ _ _ _ _ _ _ _ _ E) as Sh.
+      destruct Sh as [_ [_ [_ [_ [_ [_ [K1 _]]]]]]]. rewrite K1 in K; inversion K; subst k.
+      destruct (serve_results _ _ _ _ _ _ _ _ _ _ _ _ _ E) as [[R [_ [Hq Sv']]] | [b [_ [_ R]]]].
+      + destruct (Sv' Sv) as [q' Q]. rewrite R. exists q'. exact (Hq _ Q).
+      + rewrite R. simpl. rewrite N.eqb_refl. eexists; reflexivity.
+  Qed.
+
+  Lemma compile_mono s p src env s' ev k q :
+    compile detect H v s p src env = (s', ev) ->
+    rlookup k (results s) = Some q -> rlookup k (results s') = Some q.
+  Proof.
+    intros Hc L. destruct (compile_cases _ _ _ _ _ _ Hc) as [[R _] | Sr].
+    - rewrite R; exact L.
+    - destruct Sr as [c' [f' [fsv [cur0 [ck [exe [id [det E]]]]]]]].
+      destruct (serve_results _ _ _ _ _ _ _ _ _ _ _ _ _ E) as [[R _] | [b [_ [N0 R]]]].
+      + rewrite R; exact L.
+      + rewrite R. simpl. destruct (k =? H id src) eqn:E1; [|exact L].
+        apply N.eqb_eq in E1; subst k. rewrite L in N0; discriminate.
+  Qed.
+
+  Lemma results_mono_step s o k q :
+    rlookup k (results s) = Some q -> rlookup k (results (fst (step detect H v s o))) = Some q.
+  Proof.
+    intros L. destruct o as [p b m|l t|p|p m|p src|p src env]; simpl; try exact L.
+    - destruct (compile detect H v s p src []) as [s' ev] eqn:Hc. simpl.
+      eapply compile_mono; eassumption.
+    - destruct (compile detect H v s p src env) as [s' ev] eqn:Hc. simpl.
+      eapply compile_mono; eassumption.
+  Qed.
+
+  Lemma results_mono s ops k q :
+    rlookup k (results s) = Some q -> rlookup k (results (final detect H v s ops)) = Some q.
+  Proof.
+    revert s; induction ops as [|o r IH]; simpl; intros s L; [exact L|].
+    apply IH. apply results_mono_step; exact L.
   Qed.
 End Run.
 
-(* ---------- the code after the fix (legacy = false) ---------- *)
+(* ---------- the code with all fixes (VFixed) ---------- *)
 
 Section Fixed.
   Variable detect : N -> option N.
@@ -148,21 +285,29 @@ Section Fixed.
 
   Definition fs_ok (f : fs) : Prop := forall p b m, flookup p f = Some (File b m) -> inB b.
 
-  Definition comps_ok (past : list event) (c : cmap) : Prop :=
+  (* every memoised entry describes what the LAST request with its key was served under *)
+  Definition comps_ok (rpast : list event) (c : cmap) : Prop :=
     forall k e, clookup k c = Some (Some e) ->
       ce_exe e = fst k /\
-      exists ev b, In ev past /\ e_path ev = fst k /\ e_cur ev = Some (b, ce_mtime e) /\
+      exists ev b, last_same k rpast = Some ev /\ e_cur ev = Some (b, ce_mtime e) /\
                    detect b = Some (ce_id e).
 
   Definition results_ok (r : list (N * N)) : Prop :=
     CF -> forall k prod, rlookup k r = Some prod ->
       inB prod /\ exists id src, inS src /\ detect prod = Some id /\ k = H id src.
 
-  Definition Inv (past : list event) (s : state) : Prop :=
-    fs_ok (fsys s) /\ comps_ok past (comps s) /\ results_ok (results s).
+  Definition Inv (rpast : list event) (s : state) : Prop :=
+    fs_ok (fsys s) /\ comps_ok rpast (comps s) /\ results_ok (results s).
+
+  Definition eop_in_play (o : eop) : Prop := match o with ESwap _ b _ => inB b | _ => True end.
 
   Definition op_in_play (o : op) : Prop :=
-    match o with Swap _ b _ => inB b | Compile _ s => inS s | _ => True end.
+    match o with
+    | Swap _ b _ => inB b
+    | Compile _ s => inS s
+    | CompileW _ s env => inS s /\ Forall eop_in_play env
+    | _ => True
+    end.
 
   Definition good (e : event) : Prop :=
     identity_current detect e = true /\ (CF -> producer_current e = true) /\
@@ -176,6 +321,12 @@ Section Fixed.
 
   Lemma resolve_inB n f p t b m : fs_ok f -> resolve n f p = Some (t, (b, m)) -> inB b.
   Proof. intros F R. apply resolve_file in R. eapply F; eassumption. Qed.
+
+  Lemma stat_inB f p b m : fs_ok f -> stat f p = Some (b, m) -> inB b.
+  Proof.
+    unfold stat. intros F S. destruct (resolve FUEL f p) as [[t [b' m']]|] eqn:R; [|discriminate].
+    inversion S; subst. eapply resolve_inB; eassumption.
+  Qed.
 
   Lemma fs_ok_fset_file f p b m : fs_ok f -> inB b -> fs_ok (fset p (File b m) f).
   Proof.
@@ -201,60 +352,108 @@ Section Fixed.
     apply fs_ok_fset_file; [assumption | eapply resolve_inB; eassumption].
   Qed.
 
-  Lemma comps_ok_more past ev c : comps_ok past c -> comps_ok (past ++ [ev]) c.
+  Lemma fs_ok_env env : forall f, fs_ok f -> Forall eop_in_play env -> fs_ok (env_run f env).
   Proof.
-    intros C k e L. destruct (C k e L) as [E [ev0 [b [I R]]]]. split; [assumption|].
-    exists ev0, b. split; [apply in_or_app; left; assumption | assumption].
+    induction env as [|o env IH]; intros f F P; simpl; [exact F|].
+    inversion P as [|o' env' Po Pe]; subst. apply IH; [|exact Pe].
+    destruct o as [p b m|l t|p|p m]; simpl in *.
+    - apply fs_ok_fset_file; assumption.
+    - apply fs_ok_fset_link; assumption.
+    - apply fs_ok_fremove; assumption.
+    - apply fs_ok_touch; assumption.
   Qed.
 
-  Lemma compiler_info_fixed c f p c' i :
-    compiler_info detect false c f p = (c', i) ->
+  (* adding an event: entries under other keys are untouched, the entry under the event's own
+     key must describe the event *)
+  Lemma comps_ok_step rpast c c' ev :
+    comps_ok rpast c ->
+    (forall k1, e_ckey ev <> Some k1 -> clookup k1 c' = clookup k1 c) ->
+    (forall k e, e_ckey ev = Some k -> clookup k c' = Some (Some e) ->
+       ce_exe e = fst k /\ exists b, e_cur ev = Some (b, ce_mtime e) /\ detect b = Some (ce_id e)) ->
+    comps_ok (ev :: rpast) c'.
+  Proof.
+    intros C Other Own k1 e1 L1.
+    destruct (e_ckey ev) as [k|] eqn:K.
+    - destruct (ckey_eqb k1 k) eqn:E.
+      + apply ckey_eqb_eq in E; subst k1. destruct (Own k e1 eq_refl L1) as [X [b [Cb Db]]].
+        split; [exact X|]. exists ev, b. split; [apply last_same_cons_same; exact K | auto].
+      + assert (NE : Some k <> Some k1).
+        { intros E2; inversion E2; subst. rewrite ckey_eqb_refl in E; discriminate. }
+        rewrite (Other k1 NE) in L1. destruct (C _ _ L1) as [X [ev0 [b [Ls R]]]].
+        split; [exact X|]. exists ev0, b. split; [|exact R].
+        rewrite last_same_cons_other; [exact Ls | rewrite K; exact NE].
+    - assert (NE : None <> Some k1) by discriminate.
+      rewrite (Other k1 NE) in L1. destruct (C _ _ L1) as [X [ev0 [b [Ls R]]]].
+      split; [exact X|]. exists ev0, b. split; [|exact R].
+      rewrite last_same_cons_other; [exact Ls | rewrite K; exact NE].
+  Qed.
+
+  Lemma compiler_info_fixed c f p env c' fsv i :
+    compiler_info detect VFixed c f p env = (c', fsv, i) ->
     match resolve FUEL f p with
-    | None => c' = c /\ i = INoStat
+    | None => c' = c /\ fsv = f /\ i = INoStat
     | Some (t, (b, m)) =>
         let k := (p, if snd t =? snd p then t else p) in
-        (exists e, clookup k c = Some (Some e) /\ ce_mtime e = m /\ c' = c /\
+        (exists e, clookup k c = Some (Some e) /\ ce_mtime e = m /\ c' = c /\ fsv = f /\
                    i = IOk (ce_exe e) (ce_id e) false)
-        \/ (detect b = None /\ c' = cset k None c /\ i = IErr)
-        \/ (exists id, detect b = Some id /\
-                       c' = cset k (Some {| ce_exe := p; ce_id := id; ce_mtime := m |}) c /\
-                       i = IOk p id true)
+        \/ (c' = cset k None c /\ i = IErr /\ (fsv = f \/ fsv = env_run f env) /\
+            forall b' m', stat fsv p = Some (b', m') -> detect b' = None)
+        \/ (exists id b2 m2, i = IOk p id true /\ fsv = env_run f env /\
+              stat fsv p = Some (b2, m2) /\ detect b2 = Some id /\
+              (c' = cset k None c \/
+               (m2 = m /\ c' = cset k (Some {| ce_exe := p; ce_id := id; ce_mtime := m |}) c)))
     end.
   Proof.
-    unfold compiler_info. destruct (resolve FUEL f p) as [[t [b m]]|]; [|intros E; inversion E; auto].
-    unfold ckey, ckey_neg. cbv zeta.
+    unfold compiler_info. destruct (resolve FUEL f p) as [[t [b m]]|] eqn:R;
+      [|intros E; inversion E; auto].
+    unfold ckey, ckey_neg, legacy_key. cbv zeta.
     set (k := (p, if snd t =? snd p then t else p)).
+    set (f2 := env_run f env).
+    assert (Stf : stat f p = Some (b, m)) by (unfold stat; rewrite R; reflexivity).
     assert (Redetect :
       (match detect b with
-       | Some id => (cset k (Some {| ce_exe := p; ce_id := id; ce_mtime := m |}) c, IOk p id true)
-       | None => (cset k None c, IErr)
-       end) = (c', i) ->
-      (detect b = None /\ c' = cset k None c /\ i = IErr)
-      \/ (exists id, detect b = Some id /\
-                     c' = cset k (Some {| ce_exe := p; ce_id := id; ce_mtime := m |}) c /\
-                     i = IOk p id true)).
-    { destruct (detect b) as [id|]; intros E; inversion E; [right; exists id; auto | left; auto]. }
+       | None => (cset k None c, f, IErr)
+       | Some _ =>
+           match stat f2 p with
+           | None => (cset k None c, f2, IErr)
+           | Some (b2, _) =>
+               match detect b2 with
+               | None => (cset k None c, f2, IErr)
+               | Some id =>
+                   (match (match stat f2 p with Some (_, x) => Some x | None => None end) with
+                    | Some x => if x =? m
+                                then cset k (Some {| ce_exe := p; ce_id := id; ce_mtime := m |}) c
+                                else cset k None c
+                    | None => cset k None c
+                    end, f2, IOk p id true)
+               end
+           end
+       end) = (c', fsv, i) ->
+      (c' = cset k None c /\ i = IErr /\ (fsv = f \/ fsv = f2) /\
+       forall b' m', stat fsv p = Some (b', m') -> detect b' = None)
+      \/ (exists id b2 m2, i = IOk p id true /\ fsv = f2 /\
+            stat fsv p = Some (b2, m2) /\ detect b2 = Some id /\
+            (c' = cset k None c \/
+             (m2 = m /\ c' = cset k (Some {| ce_exe := p; ce_id := id; ce_mtime := m |}) c)))).
+    { destruct (detect b) as [idb|] eqn:Db.
+      2:{ intros E; inversion E; subst. left. split; [reflexivity|]. split; [reflexivity|].
+          split; [left; reflexivity|]. intros b' m' St. rewrite Stf in St. inversion St; subst. exact Db. }
+      destruct (stat f2 p) as [[b2 m2]|] eqn:S2.
+      2:{ intros E; inversion E; subst. left. split; [reflexivity|]. split; [reflexivity|].
+          split; [right; reflexivity|]. intros b' m' St. rewrite S2 in St. discriminate. }
+      destruct (detect b2) as [id|] eqn:D2.
+      2:{ intros E; inversion E; subst. left. split; [reflexivity|]. split; [reflexivity|].
+          split; [right; reflexivity|]. intros b' m' St. rewrite S2 in St. inversion St; subst. exact D2. }
+      destruct (m2 =? m) eqn:M; intros E; inversion E; subst; right; exists id, b2, m2;
+        (split; [reflexivity|]); (split; [reflexivity|]); (split; [exact S2|]); (split; [exact D2|]).
+      - right. apply N.eqb_eq in M. auto.
+      - left. reflexivity. }
     destruct (clookup k c) as [[e|]|] eqn:L.
     - destruct (ce_mtime e =? m) eqn:M.
       + intros E; inversion E; subst. left. exists e. apply N.eqb_eq in M. auto.
       + intros E. right. apply Redetect; assumption.
     - intros E. right. apply Redetect; assumption.
     - intros E. right. apply Redetect; assumption.
-  Qed.
-
-  Lemma compile_shape l s p src s' ev :
-    compile detect H l s p src = (s', ev) ->
-    e_path ev = p /\ e_src ev = src /\ e_cur ev = stat (fsys s) p /\ fsys s' = fsys s.
-  Proof.
-    unfold compile. destruct (compiler_info detect l (comps s) (fsys s) p) as [c' i].
-    destruct i as [| |exe id det].
-    - intros E; inversion E; subst; simpl; auto.
-    - intros E; inversion E; subst; simpl; auto.
-    - destruct (stat (fsys s) exe) as [[b0 m0]|].
-      + destruct (detect b0).
-        * destruct (rlookup (H id src) (results s)); intros E; inversion E; subst; simpl; auto.
-        * intros E; inversion E; subst; simpl; auto.
-      + intros E; inversion E; subst; simpl; auto.
   Qed.
 
   Lemma results_ok_add r k b id src :
@@ -267,254 +466,142 @@ Section Fixed.
     - eapply (R cf); eassumption.
   Qed.
 
-  Lemma compile_step past s p src s' ev :
-    Inv past s -> inS src ->
-    compile detect H false s p src = (s', ev) ->
-    (forall a, In a past -> agree a ev = true) ->
-    good ev /\ Inv (past ++ [ev]) s'.
+  Lemma serve_good rs c' f' fsv p src cur0 ck id det b mm s' ev :
+    fs_ok fsv -> results_ok rs -> inS src ->
+    stat fsv p = Some (b, mm) -> detect b = Some id ->
+    serve detect H rs c' f' fsv p src cur0 ck p id det = (s', ev) ->
+    good ev /\ results_ok (results s').
   Proof.
-    intros [F [C R]] S Hc Hag.
-    destruct (compile_shape _ _ _ _ _ _ Hc) as [Sp [Ss [Sc Sf]]].
-    revert Hc. unfold compile.
-    destruct (compiler_info detect false (comps s) (fsys s) p) as [c' i] eqn:CI.
-    apply compiler_info_fixed in CI.
-    unfold stat in Sc. 
-    destruct (resolve FUEL (fsys s) p) as [[t [b m]]|] eqn:Rs.
-    2:{ destruct CI as [-> ->]. intros E; inversion E; subst s' ev; clear E.
-        split.
-        - unfold good, identity_current, producer_current, served; simpl.
-          split; [reflexivity|]. split; [reflexivity|]. split; [discriminate|].
-          assert (NoCur : forall b1 m1, stat (fsys s) p = Some (b1, m1) -> False).
-          { intros b1 m1 E1. unfold stat in E1. rewrite Rs in E1. discriminate. }
-          split; [intros b1 m1 E1; destruct (NoCur _ _ E1)|].
-          split; [assumption|]. split; [left; reflexivity|].
-          intros b1 m1 id1 E1; destruct (NoCur _ _ E1).
-        - split; [exact F|]. split; [apply comps_ok_more; exact C | exact R]. }
-    assert (Bb : inB b) by (eapply resolve_inB; eassumption).
-    assert (Stp : stat (fsys s) p = Some (b, m)) by (unfold stat; rewrite Rs; reflexivity).
-    set (k := (p, if snd t =? snd p then t else p)) in CI.
-    (* in every IOk case: exe = p and the identity is that of the current bytes *)
-    assert (Serve : forall id det,
-      detect b = Some id ->
-      comps_ok (past ++ [ev]) c' ->
-      (let k0 := H id src in
-       let s1 := {| fsys := fsys s; comps := c'; results := results s |} in
-       let mk ran out := {| e_path := p; e_src := src; e_cur := stat (fsys s) p; e_id := Some id;
-                            e_key := Some k0; e_detected := det; e_exe := Some p; e_ran := ran;
-                            e_out := out |} in
-       match stat (fsys s) p with
-       | None => (s1, mk None OFail)
-       | Some (b0, _) =>
-           match detect b0 with
-           | None => (s1, mk (Some b0) OFail)
-           | Some _ =>
-               match rlookup k0 (results s) with
-               | Some prod => (s1, mk (Some b0) (OHit prod))
-               | None => ({| fsys := fsys s; comps := c'; results := (k0, b0) :: results s |},
-                          mk (Some b0) (OMiss b0))
-               end
-           end
-       end) = (s', ev) ->
-      good ev /\ Inv (past ++ [ev]) s').
-    { intros id det D C'. cbv zeta. rewrite Stp, D.
-      assert (Common : forall ran out,
-        (exists q, out = OHit q \/ out = OMiss q) ->
-        (CF -> match out with OHit q | OMiss q => q = b | _ => True end) ->
-        good {| e_path := p; e_src := src; e_cur := Some (b, m); e_id := Some id;
-                e_key := Some (H id src); e_detected := det; e_exe := Some p; e_ran := ran;
-                e_out := out |}).
-      { intros ran out Sv Pr. unfold good, identity_current, producer_current, served; simpl.
-        rewrite D, N.eqb_refl.
-        split; [reflexivity|]. split.
-        { intros cf. specialize (Pr cf). destruct out; auto; subst; apply N.eqb_refl. }
-        split. { intros k1 E1; inversion E1; subst. exists id; auto. }
-        split. { intros b1 m1 E1; inversion E1; subst; assumption. }
-        split; [assumption|]. split; [right; reflexivity|].
-        intros b1 m1 id1 E1 D1. inversion E1; subst b1 m1. rewrite D in D1; inversion D1; subst id1.
-        split; [|reflexivity]. destruct Sv as [q [-> | ->]]; discriminate. }
-      destruct (rlookup (H id src) (results s)) as [prod|] eqn:L.
-      - intros E; inversion E; subst s' ev; clear E.
-        split.
-        + apply Common; [exists prod; left; reflexivity|]. intros cf.
-          destruct (R cf _ _ L) as [Bp [id' [src' [S' [D' K']]]]].
-          destruct (H_collision_free cf b prod id id' src src' Bb Bp S S' D D' K') as [-> ->].
-          eapply (detect_collision_free cf); eassumption.
-        + split; [exact F|]. split; [exact C' | exact R].
-      - intros E; inversion E; subst s' ev; clear E.
-        split.
-        + apply Common; [exists b; right; reflexivity|]. intros _; reflexivity.
-        + split; [exact F|]. split; [exact C'|].
-          simpl. eapply results_ok_add; eauto. }
-    destruct CI as [[e [L [M [-> ->]]]] | [[D [-> ->]] | [id [D [-> ->]]]]].
-    - (* memoised entry reused *)
-      destruct (C _ _ L) as [Ex [ev0 [b0 [I0 [P0 [C0 D0]]]]]]. simpl in Ex, P0.
-      assert (b0 = b).
-      { apply (agree_same_bytes ev0 ev p b0 b m);
-          [apply Hag; exact I0 | exact P0 | exact Sp | rewrite <- M; exact C0 | exact Sc]. }
-      subst b0. rewrite Ex. intros E. eapply Serve; eauto.
-      apply comps_ok_more; exact C.
-    - (* detection failed *)
-      intros E; inversion E; subst s' ev; clear E. split.
-      + unfold good, identity_current, producer_current, served; simpl.
-        split; [reflexivity|]. split; [reflexivity|]. split; [discriminate|].
-        split; [intros b1 m1 E1; rewrite Stp in E1; inversion E1; subst; assumption|].
-        split; [assumption|]. split; [left; reflexivity|].
-        intros b1 m1 id1 E1 D1. rewrite Stp in E1. inversion E1; subst b1 m1.
-        rewrite D in D1; discriminate.
-      + split; [exact F|]. split; [|exact R].
-        simpl. intros k1 e1 L1. rewrite clookup_cset in L1.
-        destruct (ckey_eqb k1 k); [discriminate|].
-        exact (comps_ok_more _ _ _ C _ _ L1).
-    - (* detected afresh *)
-      intros E. eapply Serve; eauto.
-      intros k1 e1 L1. rewrite clookup_cset in L1.
-      destruct (ckey_eqb k1 k) eqn:K1.
-      + apply ckey_eqb_eq in K1; subst k1. inversion L1; subst e1; simpl. split; [reflexivity|].
-        exists ev, b. split; [apply in_or_app; right; left; reflexivity|]. auto.
-      + exact (comps_ok_more _ _ _ C _ _ L1).
+    intros F R S St D. unfold serve. rewrite St, D.
+    assert (Bb : inB b) by (eapply stat_inB; eassumption).
+    assert (Common : forall ran out,
+      (exists q, out = OHit q \/ out = OMiss q) ->
+      (CF -> match out with OHit q | OMiss q => q = b | _ => True end) ->
+      good (mk_event p src cur0 (Some (b, mm)) ck (Some id) (Some (H id src)) det (Some p) ran out)).
+    { intros ran out Sv Pr. unfold good, identity_current, producer_current, served, mk_event; simpl.
+      rewrite D, N.eqb_refl.
+      split; [reflexivity|]. split.
+      { intros cf. specialize (Pr cf). destruct out; auto; subst; apply N.eqb_refl. }
+      split. { intros k1 E1; inversion E1; subst. exists id; auto. }
+      split. { intros b1 m1 E1; inversion E1; subst; assumption. }
+      split; [assumption|]. split; [right; reflexivity|].
+      intros b1 m1 id1 E1 D1. inversion E1; subst b1 m1. rewrite D in D1; inversion D1; subst id1.
+      split; [|reflexivity]. destruct Sv as [q [-> | ->]]; discriminate. }
+    destruct (rlookup (H id src) rs) as [prod|] eqn:L.
+    - intros E; inversion E; subst s' ev; clear E. simpl. split; [|exact R].
+      apply Common; [exists prod; left; reflexivity|]. intros cf.
+      destruct (R cf _ _ L) as [Bp [id' [src' [S' [D' K']]]]].
+      destruct (H_collision_free cf b prod id id' src src' Bb Bp S S' D D' K') as [-> ->].
+      eapply (detect_collision_free cf); eassumption.
+    - intros E; inversion E; subst s' ev; clear E. simpl. split.
+      + apply Common; [exists b; right; reflexivity|]. intros _; reflexivity.
+      + eapply results_ok_add; eauto.
   Qed.
-End Fixed.
 
-Section FixedRun.
-  Variable detect : N -> option N.
-  Variable H : N -> N -> N.
-  Variable inB : N -> Prop.
-  Variable inS : N -> Prop.
-  (* CF = "the digests are collision-free on what is in play".  It is a parameter so that
-     the statements that do not need it (the identity is current) are proved without it
-     (CF := False) by the same induction. *)
-  Variable CF : Prop.
-  Hypothesis detect_collision_free :
-    CF -> forall b1 b2 i, inB b1 -> inB b2 -> detect b1 = Some i -> detect b2 = Some i -> b1 = b2.
-  Hypothesis H_collision_free :
-    CF -> forall b1 b2 i1 i2 s1 s2, inB b1 -> inB b2 -> inS s1 -> inS s2 ->
-      detect b1 = Some i1 -> detect b2 = Some i2 -> H i1 s1 = H i2 s2 -> i1 = i2 /\ s1 = s2.
+  Lemma compile_step rpast s p src env s' ev :
+    Inv rpast s -> inS src -> Forall eop_in_play env ->
+    compile detect H VFixed s p src env = (s', ev) ->
+    link_ok rpast ev = true ->
+    good ev /\ Inv (ev :: rpast) s'.
+  Proof.
+    intros [F [C R]] S Pe Hc Lk.
+    destruct (compile_shape _ _ _ _ _ _ _ _ _ Hc) as [Sp [Ss [Sc0 [Sk Sf]]]].
+    assert (F' : fs_ok (env_run (fsys s) env)) by (apply fs_ok_env; assumption).
+    revert Hc. unfold compile.
+    destruct (compiler_info detect VFixed (comps s) (fsys s) p env) as [[c' fsv] i] eqn:CI.
+    apply compiler_info_fixed in CI. unfold req_key in Sk.
+    destruct (resolve FUEL (fsys s) p) as [[t [b m]]|] eqn:Rs.
+    2:{ destruct CI as [-> [-> ->]]. intros E; inversion E; subst s' ev; clear E. split.
+        - unfold good, identity_current, producer_current, served, mk_event; simpl.
+          split; [reflexivity|]. split; [reflexivity|]. split; [discriminate|].
+          split; [discriminate|]. split; [assumption|]. split; [left; reflexivity|]. discriminate.
+        - split; [exact F'|]. split; [|exact R]. simpl.
+          eapply comps_ok_step; [exact C | reflexivity |].
+          intros k1 e1 K1. unfold mk_event in K1; simpl in K1. unfold req_key in K1. rewrite Rs in K1. discriminate. }
+    simpl in Sk, CI.
+    set (k := (p, if snd t =? snd p then t else p)) in *.
+    assert (Stp : stat (fsys s) p = Some (b, m)) by (unfold stat; rewrite Rs; reflexivity).
+    rewrite Stp in Sc0.
+    assert (Rk : req_key VFixed (fsys s) p = Some k) by (unfold req_key; rewrite Rs; reflexivity).
+    destruct CI as [[e [L [M [-> [-> ->]]]]] | [[-> [-> [Fsv Nd]]] | [id [b2 [m2 [-> [-> [S2 [D2 Cm]]]]]]]]].
+    - (* memoised entry reused *)
+      destruct (C _ _ L) as [Ex [ev0 [b0 [Ls [C0 D0]]]]]. simpl in Ex.
+      assert (b0 = b).
+      { apply (agree_same_bytes ev0 ev b0 b m);
+          [eapply link_ok_use; eassumption | rewrite <- M; exact C0 | exact Sc0]. }
+      subst b0. rewrite Ex. intros E.
+      destruct (serve_good _ _ _ _ _ _ _ _ _ _ _ _ _ _ F R S Stp D0 E) as [G R'].
+      destruct (serve_shape _ _ _ _ _ _ _ _ _ _ _ _ _ _ _ E) as [_ [_ [_ [_ [Cu [_ [_ [_ [Fs Cs]]]]]]]]].
+      split; [exact G|]. split; [rewrite Fs; exact F'|]. split; [|exact R']. rewrite Cs.
+      eapply comps_ok_step; [exact C | reflexivity |].
+      intros k1 e1 K1 L1. rewrite Sk in K1; inversion K1; subst k1. rewrite L in L1; inversion L1; subst e1.
+      split; [exact Ex|]. exists b. rewrite Cu, Stp, M. auto.
+    - (* detection failed *)
+      assert (Fv : fs_ok fsv) by (destruct Fsv as [-> | ->]; assumption).
+      intros E; inversion E; subst s' ev; clear E. split.
+      + unfold good, identity_current, producer_current, served, mk_event; simpl.
+        split; [reflexivity|]. split; [reflexivity|]. split; [discriminate|].
+        split; [intros b1 m1 E1; eapply stat_inB; eassumption|].
+        split; [assumption|]. split; [left; reflexivity|].
+        intros b1 m1 id1 E1 D1. rewrite (Nd _ _ E1) in D1. discriminate.
+      + split; [exact F'|]. split; [|exact R]. cbn [comps].
+        eapply comps_ok_step; [exact C | |].
+        * unfold mk_event; cbn [e_ckey e_cur]. rewrite Rk. intros k1 NE. rewrite clookup_cset.
+          destruct (ckey_eqb k1 k) eqn:E1; [|reflexivity].
+          apply ckey_eqb_eq in E1; subst k1. contradiction NE; reflexivity.
+        * unfold mk_event; cbn [e_ckey e_cur]. rewrite Rk. intros k1 e1 K1 L1. inversion K1; subst k1.
+          rewrite clookup_cset, ckey_eqb_refl in L1. discriminate.
+    - (* detected afresh, in the file system the window left behind *)
+      intros E.
+      destruct (serve_good _ _ _ _ _ _ _ _ _ _ _ _ _ _ F' R S S2 D2 E) as [G R'].
+      destruct (serve_shape _ _ _ _ _ _ _ _ _ _ _ _ _ _ _ E) as [_ [_ [_ [_ [Cu [_ [_ [_ [Fs Cs]]]]]]]]].
+      split; [exact G|]. split; [rewrite Fs; exact F'|]. split; [|exact R']. rewrite Cs.
+      eapply comps_ok_step; [exact C | |].
+      + intros k1 NE. rewrite Sk in NE.
+        assert (E1 : ckey_eqb k1 k = false).
+        { destruct (ckey_eqb k1 k) eqn:E1; [|reflexivity].
+          apply ckey_eqb_eq in E1; subst k1. contradiction NE; reflexivity. }
+        destruct Cm as [-> | [_ ->]]; rewrite clookup_cset, E1; reflexivity.
+      + intros k1 e1 K1 L1. rewrite Sk in K1; inversion K1; subst k1.
+        destruct Cm as [-> | [Mm ->]]; rewrite clookup_cset, ckey_eqb_refl in L1; [discriminate|].
+        inversion L1; subst e1; simpl. split; [reflexivity|].
+        exists b2. rewrite Cu, S2, Mm. auto.
+  Qed.
 
-  Notation Inv := (Inv detect H inB inS CF).
-  Notation good := (good detect H inB inS CF).
-  Notation op_in_play := (op_in_play inB inS).
-
-  Lemma step_inv past s o :
-    Inv past s -> op_in_play o ->
-    (forall ev, snd (step detect H false s o) = Some ev -> forall a, In a past -> agree a ev = true) ->
-    match snd (step detect H false s o) with
-    | Some ev => good ev /\ Inv (past ++ [ev]) (fst (step detect H false s o))
-    | None => Inv past (fst (step detect H false s o))
+  Lemma step_inv rpast s o :
+    Inv rpast s -> op_in_play o ->
+    (forall ev, snd (step detect H VFixed s o) = Some ev -> link_ok rpast ev = true) ->
+    match snd (step detect H VFixed s o) with
+    | Some ev => good ev /\ Inv (ev :: rpast) (fst (step detect H VFixed s o))
+    | None => Inv rpast (fst (step detect H VFixed s o))
     end.
   Proof.
-    intros I P A. destruct o as [p b m|l t|p|p m|p src]; simpl in *.
+    intros I P A. destruct o as [p b m|l t|p|p m|p src|p src env]; simpl in *.
     - destruct I as [F [C R]]. split; [|split]; simpl; auto. apply fs_ok_fset_file; assumption.
     - destruct I as [F [C R]]. split; [|split]; simpl; auto. apply fs_ok_fset_link; assumption.
     - destruct I as [F [C R]]. split; [|split]; simpl; auto. apply fs_ok_fremove; assumption.
     - destruct I as [F [C R]]. split; [|split]; simpl; auto. apply fs_ok_touch; assumption.
-    - destruct (compile detect H false s p src) as [s' ev] eqn:Hc. simpl in *.
+    - destruct (compile detect H VFixed s p src []) as [s' ev] eqn:Hc. simpl in *.
       eapply compile_step; eauto.
+    - destruct (compile detect H VFixed s p src env) as [s' ev] eqn:Hc. simpl in *.
+      destruct P as [Ps Pe]. eapply compile_step; eauto.
   Qed.
 
-  Lemma run_inv ops : forall s past,
-    Forall op_in_play ops -> Inv past s ->
-    (forall a b, In a (past ++ exec detect H false s ops) ->
-                 In b (past ++ exec detect H false s ops) -> agree a b = true) ->
-    Forall good (exec detect H false s ops) /\
-    Inv (past ++ exec detect H false s ops) (final detect H false s ops).
+  Lemma run_inv ops : forall s rpast,
+    Forall op_in_play ops -> Inv rpast s ->
+    tracks rpast (exec detect H VFixed s ops) = true ->
+    Forall good (exec detect H VFixed s ops).
   Proof.
-    induction ops as [|o r IH]; intros s past P I A; simpl.
-    - split; [constructor | rewrite app_nil_r; exact I].
-    - inversion P as [|o' r' Po Pr]; subst.
-      simpl in A.
-      pose proof (step_inv past s o I Po) as St.
-      destruct (snd (step detect H false s o)) as [ev|] eqn:Sn.
-      + destruct St as [G I'].
-        { intros ev' E a Ia. inversion E; subst ev'. apply A.
-          - apply in_or_app; left; exact Ia.
-          - apply in_or_app; right; left; reflexivity. }
-        destruct (IH (fst (step detect H false s o)) (past ++ [ev]) Pr I') as [Gr Ir].
-        { intros a b Ia Ib. rewrite <- app_assoc in Ia, Ib. simpl in Ia, Ib. apply A; assumption. }
-        split; [constructor; assumption|].
-        rewrite <- app_assoc in Ir. exact Ir.
-      + assert (I' : Inv past (fst (step detect H false s o))).
-        { apply St. intros ev' E; discriminate. }
-        apply IH; assumption.
+    induction ops as [|o r IH]; intros s rpast P I T; simpl; [constructor|].
+    inversion P as [|o' r' Po Pr]; subst. simpl in T.
+    pose proof (step_inv rpast s o I Po) as St.
+    destruct (snd (step detect H VFixed s o)) as [ev|] eqn:Sn.
+    - simpl in T. apply andb_true_iff in T as [T1 T2].
+      destruct St as [G I']; [intros ev' E; inversion E; subst; exact T1|].
+      constructor; [exact G|]. eapply IH; eassumption.
+    - eapply IH; [exact Pr | | exact T]. apply St. intros ev' E; discriminate.
   Qed.
-End FixedRun.
-
-(* ---------- the result cache only grows; a served request leaves its key in it ---------- *)
-
-Section Results.
-  Variable detect : N -> option N.
-  Variable H : N -> N -> N.
-  Variable legacy : bool.
-
-  Lemma compile_results s p src s' ev :
-    compile detect H legacy s p src = (s', ev) ->
-    (results s' = results s /\ (forall q, e_out ev <> OMiss q)) \/
-    (exists k b, e_key ev = Some k /\ e_out ev = OMiss b /\ rlookup k (results s) = None /\
-                 results s' = (k, b) :: results s).
-  Proof.
-    unfold compile. destruct (compiler_info detect legacy (comps s) (fsys s) p) as [c' i].
-    destruct i as [| |exe id det].
-    - intros E; inversion E; subst; simpl; left; split; [reflexivity | discriminate].
-    - intros E; inversion E; subst; simpl; left; split; [reflexivity | discriminate].
-    - destruct (stat (fsys s) exe) as [[b0 m0]|].
-      + destruct (detect b0).
-        * destruct (rlookup (H id src) (results s)) eqn:L; intros E; inversion E; subst; simpl.
-          -- left; split; [reflexivity | discriminate].
-          -- right. exists (H id src), b0. auto.
-        * intros E; inversion E; subst; simpl; left; split; [reflexivity | discriminate].
-      + intros E; inversion E; subst; simpl; left; split; [reflexivity | discriminate].
-  Qed.
-
-  Lemma compile_hit s p src s' ev k v :
-    compile detect H legacy s p src = (s', ev) ->
-    e_key ev = Some k -> rlookup k (results s) = Some v -> served ev <> None -> e_out ev = OHit v.
-  Proof.
-    unfold compile. destruct (compiler_info detect legacy (comps s) (fsys s) p) as [c' i].
-    destruct i as [| |exe id det].
-    - intros E; inversion E; subst; simpl; discriminate.
-    - intros E; inversion E; subst; simpl; discriminate.
-    - destruct (stat (fsys s) exe) as [[b0 m0]|].
-      + destruct (detect b0).
-        * destruct (rlookup (H id src) (results s)) eqn:L; intros E; inversion E; subst; simpl;
-            intros K; inversion K; subst k; intros L'; rewrite L in L'; inversion L'; subst; auto.
-        * intros E; inversion E; subst; unfold served; simpl. intros _ _ C; contradiction C; reflexivity.
-      + intros E; inversion E; subst; unfold served; simpl. intros _ _ C; contradiction C; reflexivity.
-  Qed.
-
-  Lemma compile_stores s p src s' ev k :
-    compile detect H legacy s p src = (s', ev) ->
-    e_key ev = Some k -> served ev <> None -> exists v, rlookup k (results s') = Some v.
-  Proof.
-    unfold compile. destruct (compiler_info detect legacy (comps s) (fsys s) p) as [c' i].
-    destruct i as [| |exe id det].
-    - intros E; inversion E; subst; simpl; discriminate.
-    - intros E; inversion E; subst; simpl; discriminate.
-    - destruct (stat (fsys s) exe) as [[b0 m0]|].
-      + destruct (detect b0).
-        * destruct (rlookup (H id src) (results s)) eqn:L; intros E; inversion E; subst; simpl;
-            intros K; inversion K; subst k; intros _.
-          -- eexists; exact L.
-          -- rewrite N.eqb_refl. eexists; reflexivity.
-        * intros E; inversion E; subst; unfold served; simpl. intros _ C; contradiction C; reflexivity.
-      + intros E; inversion E; subst; unfold served; simpl. intros _ C; contradiction C; reflexivity.
-  Qed.
-
-  Lemma results_mono_step s o k v :
-    rlookup k (results s) = Some v -> rlookup k (results (fst (step detect H legacy s o))) = Some v.
-  Proof.
-    intros L. destruct o as [p b m|l t|p|p m|p src]; simpl; try exact L.
-    destruct (compile detect H legacy s p src) as [s' ev] eqn:Hc. simpl.
-    destruct (compile_results _ _ _ _ _ Hc) as [[-> _] | [k0 [b0 [_ [_ [N0 ->]]]]]]; [exact L|].
-    simpl. destruct (k =? k0) eqn:E; [|exact L].
-    apply N.eqb_eq in E; subst k0. rewrite L in N0; discriminate.
-  Qed.
-
-  Lemma results_mono s ops k v :
-    rlookup k (results s) = Some v -> rlookup k (results (final detect H legacy s ops)) = Some v.
-  Proof.
-    revert s; induction ops as [|o r IH]; simpl; intros s L; [exact L|].
-    apply IH. apply results_mono_step; exact L.
-  Qed.
-End Results.
+End Fixed.
 
 (* ---------- closing: from the boolean premises to the theorems ---------- *)
 
@@ -567,11 +654,18 @@ Section Closed.
 
   Lemma ops_all_in_play : Forall (op_in_play inB inS) ops.
   Proof.
-    apply Forall_forall. intros o Io. destruct o as [p b m|l t|p|p m|p src]; simpl; auto.
+    apply Forall_forall. intros o Io. destruct o as [p b m|l t|p|p m|p src|p src env]; simpl; auto.
     - unfold inB, bytes_in_play. apply in_or_app; right. apply in_flat_map.
       exists (Swap p b m). split; [exact Io | simpl; auto].
     - unfold inS, srcs_in_play. apply in_flat_map.
       exists (Compile p src). split; [exact Io | simpl; auto].
+    - split.
+      + unfold inS, srcs_in_play. apply in_flat_map.
+        exists (CompileW p src env). split; [exact Io | simpl; auto].
+      + apply Forall_forall. intros eo Ie. destruct eo as [q b m|l t|q|q m]; simpl; auto.
+        unfold inB, bytes_in_play. apply in_or_app; right. apply in_flat_map.
+        exists (CompileW p src env). split; [exact Io|]. simpl. apply in_flat_map.
+        exists (ESwap q b m). split; [exact Ie | simpl; auto].
   Qed.
 
   Lemma start_inv : Inv detect H inB inS CFb [] (start f0).
@@ -583,27 +677,22 @@ Section Closed.
     - intros _ k prod L; discriminate.
   Qed.
 
-  Hypothesis WF : wf_history detect H false f0 ops = true.
+  Hypothesis WF : wf_history detect H VFixed f0 ops = true.
 
-  Lemma whole_run :
-    Forall (good detect H inB inS CFb) (exec detect H false (start f0) ops) /\
-    Inv detect H inB inS CFb (exec detect H false (start f0) ops) (final detect H false (start f0) ops).
+  Lemma whole_run : Forall (good detect H inB inS CFb) (exec detect H VFixed (start f0) ops).
   Proof.
-    apply (run_inv detect H inB inS CFb cf_detect cf_H ops (start f0) [] ops_all_in_play start_inv).
-    simpl. intros a b Ia Ib. apply (tracks_agree _ WF); assumption.
+    exact (run_inv detect H inB inS CFb cf_detect cf_H ops (start f0) [] ops_all_in_play start_inv WF).
   Qed.
 
-  Lemma event_good e : In e (exec detect H false (start f0) ops) -> good detect H inB inS CFb e.
-  Proof. intros I. destruct whole_run as [G _]. rewrite Forall_forall in G. auto. Qed.
+  Lemma event_good e : In e (exec detect H VFixed (start f0) ops) -> good detect H inB inS CFb e.
+  Proof. intros I. pose proof whole_run as G. rewrite Forall_forall in G. auto. Qed.
 
-  (* C12_identity_is_current *)
   Lemma identity_is_current e :
-    In e (exec detect H false (start f0) ops) -> identity_current detect e = true.
+    In e (exec detect H VFixed (start f0) ops) -> identity_current detect e = true.
   Proof. intros I. apply (event_good e I). Qed.
 
-  (* C12_identity_is_current, spelled out *)
   Lemma identity_spelled e id :
-    In e (exec detect H false (start f0) ops) -> e_id e = Some id ->
+    In e (exec detect H VFixed (start f0) ops) -> e_id e = Some id ->
     exists b m, e_cur e = Some (b, m) /\ detect b = Some id.
   Proof.
     intros I E. pose proof (identity_is_current e I) as C. unfold identity_current in C.
@@ -613,14 +702,14 @@ Section Closed.
   Qed.
 
   Lemma served_working e :
-    In e (exec detect H false (start f0) ops) ->
+    In e (exec detect H VFixed (start f0) ops) ->
     forall b m id, e_cur e = Some (b, m) -> detect b = Some id ->
     served e <> None /\ e_key e = Some (H id (e_src e)).
   Proof. intros I. apply (event_good e I). Qed.
 
   (* C12_identity_is_current, all three readings *)
   Lemma identity_full e :
-    In e (exec detect H false (start f0) ops) ->
+    In e (exec detect H VFixed (start f0) ops) ->
     identity_current detect e = true /\
     (forall id, e_id e = Some id -> exists b m, e_cur e = Some (b, m) /\ detect b = Some id) /\
     (forall b m id, e_cur e = Some (b, m) -> detect b = Some id ->
@@ -633,7 +722,7 @@ Section Closed.
 
   (* C12_no_cross_binary_results *)
   Lemma no_cross e prod :
-    CFb -> In e (exec detect H false (start f0) ops) -> served e = Some prod ->
+    CFb -> In e (exec detect H VFixed (start f0) ops) -> served e = Some prod ->
     exists m, e_cur e = Some (prod, m).
   Proof.
     intros cf I Sv. destruct (event_good e I) as [_ [P _]]. specialize (P cf).
@@ -645,7 +734,7 @@ Section Closed.
   (* C12_distinct_binaries_never_share *)
   Lemma distinct_never_share e1 e2 b1 m1 b2 m2 k1 k2 :
     CFb ->
-    In e1 (exec detect H false (start f0) ops) -> In e2 (exec detect H false (start f0) ops) ->
+    In e1 (exec detect H VFixed (start f0) ops) -> In e2 (exec detect H VFixed (start f0) ops) ->
     e_cur e1 = Some (b1, m1) -> e_cur e2 = Some (b2, m2) -> b1 <> b2 ->
     e_key e1 = Some k1 -> e_key e2 = Some k2 -> k1 <> k2.
   Proof.
@@ -665,44 +754,86 @@ Section Closed.
   Lemma swap_back h1 p src h2 p' e1 e2 A id m1 m2 :
     CFb ->
     ops = h1 ++ Compile p src :: h2 ++ [Compile p' src] ->
-    snd (step detect H false (final detect H false (start f0) h1) (Compile p src)) = Some e1 ->
-    snd (step detect H false (final detect H false (start f0) (h1 ++ Compile p src :: h2))
+    snd (step detect H VFixed (final detect H VFixed (start f0) h1) (Compile p src)) = Some e1 ->
+    snd (step detect H VFixed (final detect H VFixed (start f0) (h1 ++ Compile p src :: h2))
               (Compile p' src)) = Some e2 ->
     detect A = Some id -> e_cur e1 = Some (A, m1) -> e_cur e2 = Some (A, m2) ->
     e_out e1 <> OFail /\ e_out e2 = OHit A.
   Proof.
     intros cf Eo S1 S2 D C1 C2.
-    set (sa := final detect H false (start f0) h1) in *.
-    set (s2 := final detect H false (start f0) (h1 ++ Compile p src :: h2)) in *.
+    set (sa := final detect H VFixed (start f0) h1) in *.
+    set (s2 := final detect H VFixed (start f0) (h1 ++ Compile p src :: h2)) in *.
     simpl in S1, S2.
-    destruct (compile detect H false sa p src) as [s1 e1'] eqn:Hc1. simpl in S1. inversion S1; subst e1'.
-    destruct (compile detect H false s2 p' src) as [s3 e2'] eqn:Hc2. simpl in S2. inversion S2; subst e2'.
-    assert (Ev : exec detect H false (start f0) ops =
-                 exec detect H false (start f0) h1 ++ e1 :: exec detect H false s1 h2 ++ [e2]).
+    destruct (compile detect H VFixed sa p src []) as [s1 e1'] eqn:Hc1. simpl in S1. inversion S1; subst e1'.
+    destruct (compile detect H VFixed s2 p' src []) as [s3 e2'] eqn:Hc2. simpl in S2. inversion S2; subst e2'.
+    assert (Ev : exec detect H VFixed (start f0) ops =
+                 exec detect H VFixed (start f0) h1 ++ e1 :: exec detect H VFixed s1 h2 ++ [e2]).
     { rewrite Eo. rewrite exec_app. fold sa. f_equal. simpl. rewrite Hc1. simpl. f_equal.
       rewrite exec_app. f_equal.
-      assert (Es2 : final detect H false s1 h2 = s2).
+      assert (Es2 : final detect H VFixed s1 h2 = s2).
       { unfold s2. rewrite final_app. fold sa. simpl. rewrite Hc1. reflexivity. }
       rewrite Es2. simpl. rewrite Hc2. reflexivity. }
-    assert (I1 : In e1 (exec detect H false (start f0) ops)).
+    assert (I1 : In e1 (exec detect H VFixed (start f0) ops)).
     { rewrite Ev. apply in_or_app; right; left; reflexivity. }
-    assert (I2 : In e2 (exec detect H false (start f0) ops)).
+    assert (I2 : In e2 (exec detect H VFixed (start f0) ops)).
     { rewrite Ev. apply in_or_app; right; right. apply in_or_app; right; left; reflexivity. }
-    destruct (compile_shape _ _ _ _ _ _ _ _ Hc1) as [_ [Sr1 _]].
-    destruct (compile_shape _ _ _ _ _ _ _ _ Hc2) as [_ [Sr2 _]].
+    destruct (compile_shape _ _ _ _ _ _ _ _ _ Hc1) as [_ [Sr1 _]].
+    destruct (compile_shape _ _ _ _ _ _ _ _ _ Hc2) as [_ [Sr2 _]].
     destruct (served_working e1 I1 A m1 id C1 D) as [Sv1 K1]. rewrite Sr1 in K1.
     destruct (served_working e2 I2 A m2 id C2 D) as [Sv2 K2]. rewrite Sr2 in K2.
-    destruct (compile_stores _ _ _ _ _ _ _ _ _ Hc1 K1 Sv1) as [v L1].
-    assert (L2 : rlookup (H id src) (results s2) = Some v).
+    destruct (compile_stores _ _ _ _ _ _ _ _ _ _ Hc1 K1 Sv1) as [q L1].
+    assert (L2 : rlookup (H id src) (results s2) = Some q).
     { unfold s2. rewrite final_app. fold sa. simpl. rewrite Hc1. simpl. apply results_mono; exact L1. }
-    pose proof (compile_hit _ _ _ _ _ _ _ _ _ _ Hc2 K2 L2 Sv2) as Out.
+    pose proof (compile_hit _ _ _ _ _ _ _ _ _ _ _ Hc2 K2 L2 Sv2) as Out.
     split.
     - intros F. unfold served in Sv1. rewrite F in Sv1. apply Sv1; reflexivity.
-    - destruct (no_cross e2 v cf I2) as [m' C2'].
+    - destruct (no_cross e2 q cf I2) as [m' C2'].
       { unfold served. rewrite Out. reflexivity. }
       rewrite C2 in C2'; inversion C2'; subst. exact Out.
   Qed.
 End Closed.
+
+(* ---------- without a window the re-stat changes nothing: as found = fixed ---------- *)
+
+Section Windowless.
+  Variable detect : N -> option N.
+  Variable H : N -> N -> N.
+
+  Lemma compiler_info_no_window c f p :
+    compiler_info detect VAsFound c f p [] = compiler_info detect VFixed c f p [].
+  Proof.
+    unfold compiler_info. simpl env_run.
+    destruct (resolve FUEL f p) as [[t [b m]]|] eqn:R; [|reflexivity].
+    assert (St : stat f p = Some (b, m)) by (unfold stat; rewrite R; reflexivity).
+    simpl legacy_key. cbv zeta. rewrite St.
+    destruct (detect b) as [id|] eqn:D; [|reflexivity].
+    rewrite N.eqb_refl. reflexivity.
+  Qed.
+
+  Lemma compile_no_window s p src :
+    compile detect H VAsFound s p src [] = compile detect H VFixed s p src [].
+  Proof. unfold compile. rewrite compiler_info_no_window. reflexivity. Qed.
+
+  Lemma step_no_window s o :
+    (match o with CompileW _ _ (_ :: _) => false | _ => true end) = true ->
+    step detect H VAsFound s o = step detect H VFixed s o.
+  Proof.
+    destruct o as [p b m|l t|p|p m|p src|p src env]; simpl; intros W; try reflexivity.
+    - rewrite compile_no_window; reflexivity.
+    - destruct env; [|discriminate]. rewrite compile_no_window; reflexivity.
+  Qed.
+
+  Lemma windowless_same ops : forall s,
+    windowless ops = true ->
+    exec detect H VAsFound s ops = exec detect H VFixed s ops /\
+    final detect H VAsFound s ops = final detect H VFixed s ops.
+  Proof.
+    induction ops as [|o r IH]; intros s W; simpl; [auto|].
+    unfold windowless in W. simpl in W. apply andb_true_iff in W as [Wo Wr].
+    rewrite (step_no_window s o Wo).
+    destruct (IH (fst (step detect H VFixed s o)) Wr) as [E F]. rewrite E, F. auto.
+  Qed.
+End Windowless.
 
 (* ---------- witnesses (concrete digests: bytes ids < 100 are working compilers) ---------- *)
 
@@ -718,43 +849,86 @@ Definition ops_same_mtime_link : list op :=
   [Swap (2, 0) 1 5; Swap (3, 0) 2 5; Retarget (0, 1) (2, 0); Compile (0, 1) 0;
    Retarget (0, 1) (3, 0); Compile (0, 1) 0].
 
-(* the defect in the code as found: two links named gcc to one binary, the first retargeted *)
+(* the first defect in the code as found: two links named gcc to one binary, the first retargeted *)
 Definition ops_shared_entry : list op :=
   [Swap (2, 0) 1 5; Swap (3, 0) 2 9; Retarget (0, 0) (2, 0); Retarget (1, 0) (2, 0);
    Compile (0, 0) 0; Retarget (0, 0) (3, 0); Compile (1, 0) 1].
 
-(* a history inside the premise: swap, swap back, links, a non-compiler *)
+(* a swap while a detection is in flight, the new binary stays: harmless unless the mtime
+   recorded is the one read AFTER the detection (VEarlyLate) *)
+Definition ops_window_swap : list op :=
+  [Swap (0, 0) 1 5; CompileW (0, 0) 0 [ESwap (0, 0) 2 6]; Compile (0, 0) 1; Compile (0, 0) 0].
+
+(* a swap while a detection is in flight, then the OLD file put back with its original mtime
+   before any other request: breaks the code that memoises unconditionally (VAsFound) *)
+Definition ops_window_restore : list op :=
+  [Swap (0, 0) 1 5; CompileW (0, 0) 0 [ESwap (0, 0) 2 6]; Swap (0, 0) 1 5; Compile (0, 0) 1;
+   Compile (0, 0) 0].
+
+(* three binaries, the third re-using the first one's mtime, each seen in between *)
+Definition ops_recycled_mtime : list op :=
+  [Swap (0, 0) 1 5; Compile (0, 0) 0; Swap (0, 0) 2 7; Compile (0, 0) 0; Swap (0, 0) 3 5;
+   Compile (0, 0) 0; Compile (0, 0) 1; Swap (0, 0) 2 7; Compile (0, 0) 1; Swap (0, 0) 1 5;
+   Compile (0, 0) 1; Compile (0, 0) 0].
+
+(* a history inside the premise: swap, swap back, links, a non-compiler, windows *)
 Definition ops_example : list op :=
   [Swap (0, 0) 1 5; Compile (0, 0) 0; Swap (0, 0) 2 6; Compile (0, 0) 0; Swap (0, 0) 1 5;
    Compile (0, 0) 0; Retarget (1, 0) (0, 0); Compile (1, 0) 0; Swap (0, 0) 100 7; Compile (1, 0) 0;
-   Retarget (1, 0) (2, 0); Swap (2, 0) 2 6; Compile (1, 0) 0].
+   Retarget (1, 0) (2, 0); Swap (2, 0) 2 6; Compile (1, 0) 0; Swap (2, 0) 2 9;
+   CompileW (1, 0) 1 [ESwap (2, 0) 3 8]; Swap (2, 0) 2 6; Compile (1, 0) 1; Compile (1, 0) 0].
+
+Definition all_right (v : variant) (ops : list op) : bool :=
+  forallb (fun e => identity_current detect_w e && producer_current e)
+          (exec detect_w H_w v (start []) ops).
+
+Definition some_stale (v : variant) (ops : list op) : bool :=
+  existsb (fun e => negb (identity_current detect_w e))
+          (exec detect_w H_w v (start []) ops).
 
 Lemma same_mtime_refuted :
   collision_free_in_play detect_w H_w [] ops_same_mtime = true /\
-  wf_history detect_w H_w false [] ops_same_mtime = false /\
+  wf_history detect_w H_w VFixed [] ops_same_mtime = false /\
   existsb (fun e => negb (identity_current detect_w e) && negb (producer_current e))
-          (exec detect_w H_w false (start []) ops_same_mtime) = true.
+          (exec detect_w H_w VFixed (start []) ops_same_mtime) = true.
 Proof. vm_compute. auto. Qed.
 
 Lemma same_mtime_link_refuted :
   collision_free_in_play detect_w H_w [] ops_same_mtime_link = true /\
-  wf_history detect_w H_w false [] ops_same_mtime_link = false /\
+  wf_history detect_w H_w VFixed [] ops_same_mtime_link = false /\
   existsb (fun e => negb (identity_current detect_w e) && negb (producer_current e))
-          (exec detect_w H_w false (start []) ops_same_mtime_link) = true.
+          (exec detect_w H_w VFixed (start []) ops_same_mtime_link) = true.
 Proof. vm_compute. auto. Qed.
 
 Lemma shared_entry_refuted :
   collision_free_in_play detect_w H_w [] ops_shared_entry = true /\
-  wf_history detect_w H_w true [] ops_shared_entry = true /\
+  wf_history detect_w H_w VLegacy [] ops_shared_entry = true /\
   existsb (fun e => identity_current detect_w e && negb (producer_current e))
-          (exec detect_w H_w true (start []) ops_shared_entry) = true /\
-  forallb (fun e => identity_current detect_w e && producer_current e)
-          (exec detect_w H_w false (start []) ops_shared_entry) = true.
+          (exec detect_w H_w VLegacy (start []) ops_shared_entry) = true /\
+  all_right VFixed ops_shared_entry = true.
 Proof. vm_compute. auto. Qed.
+
+Lemma window_refuted :
+  (* mtime recorded after, digest taken before: a swap in the window is permanent *)
+  (collision_free_in_play detect_w H_w [] ops_window_swap = true /\
+   wf_history detect_w H_w VEarlyLate [] ops_window_swap = true /\
+   some_stale VEarlyLate ops_window_swap = true /\
+   all_right VAsFound ops_window_swap = true /\ all_right VFixed ops_window_swap = true) /\
+  (* memoising unconditionally: the old file put back with its old mtime is keyed on the new one *)
+  (collision_free_in_play detect_w H_w [] ops_window_restore = true /\
+   wf_history detect_w H_w VAsFound [] ops_window_restore = true /\
+   some_stale VAsFound ops_window_restore = true /\
+   wf_history detect_w H_w VFixed [] ops_window_restore = true /\
+   all_right VFixed ops_window_restore = true).
+Proof. vm_compute. auto 10. Qed.
 
 Lemma example_in_premise :
   collision_free_in_play detect_w H_w [] ops_example = true /\
-  wf_history detect_w H_w false [] ops_example = true /\
-  map e_out (exec detect_w H_w false (start []) ops_example) =
-    [OMiss 1; OMiss 2; OHit 1; OHit 1; OUnsupported; OHit 2].
-Proof. vm_compute. auto. Qed.
+  wf_history detect_w H_w VFixed [] ops_example = true /\
+  map e_out (exec detect_w H_w VFixed (start []) ops_example) =
+    [OMiss 1; OMiss 2; OHit 1; OHit 1; OUnsupported; OHit 2; OMiss 3; OMiss 2; OHit 2] /\
+  (* A -> B -> C with A and C sharing an mtime, each seen in between, is inside the premise *)
+  wf_history detect_w H_w VFixed [] ops_recycled_mtime = true /\
+  map e_out (exec detect_w H_w VFixed (start []) ops_recycled_mtime) =
+    [OMiss 1; OMiss 2; OMiss 3; OMiss 3; OMiss 2; OMiss 1; OHit 1].
+Proof. vm_compute. auto 10. Qed.
